@@ -4,7 +4,7 @@
 From Coq Require Extraction.
 From Coq Require Import ExtrOcamlBasic.
 From CP Require Import Bytes Runtime TimePb Schema Codec Decode WF RefSpec.
-From CP Require Import GenNames GenOrder.
+From CP Require Import GenNames GenOrder GenTemplates.
 Extraction Language OCaml.
 Extraction "model.ml"
   Bytes.enc_varint Bytes.dec_varint Bytes.n2b Bytes.b2n
@@ -16,4 +16,5 @@ Extraction "model.ml"
   GenNames.rewrite_field GenNames.is_reserved GenNames.go_ok GenNames.dec GenNames.undec GenNames.names_wf GenNames.fd_safe GenNames.derived_idents
   GenNames.nodupb GenNames.getter_unique GenNames.struct_members
   GenOrder.gen_outcome GenOrder.msg_index GenOrder.scan GenOrder.indexed GenOrder.flatten_gen GenOrder.flatten_spec GenOrder.nodup_paths GenOrder.index_of
-  GenOrder.lookup_path GenOrder.mt_name.
+  GenOrder.lookup_path GenOrder.mt_name
+  GenTemplates.size_method_opens GenTemplates.size_field GenTemplates.balanced GenTemplates.valid_combo.
